@@ -138,7 +138,7 @@ const maxImportDepth = 1000
 func (c *compiler) compileImport(i *Import) error {
 	var path, alias string
 	var err error
-	if i.ImportPath != "" {
+	if i.ImportPath != "" || i.ImportAlias != "" {
 		path, alias = i.ImportPath, i.ImportAlias
 	} else {
 		path = i.IncludePath
